@@ -416,6 +416,10 @@ def weight(u: dict) -> float:
         return {"func": 1.0, "method": 1.0, "static": 1.0, "class": 1.5, "init": 2.5}[u["callee"]]
     if f == "d":
         return 4.0 if u["name"].startswith("dh_") else 6.0 if u["name"] == "dbits" else 1.5
+    if f == "h":
+        return 0.31 * u["depth"]
+    if f == "o":
+        return 0.8
     return 3.0
 
 
@@ -438,7 +442,8 @@ def pack(units: list[dict], capacity: float) -> list[list[dict]]:
 
 def strip(unit: dict) -> dict:
     """The part of a unit the driver needs."""
-    return {k: unit[k] for k in ("name", "module", "family", "construct", "doms", "calls", "alias", "shapes") if k in unit}
+    return {k: unit[k] for k in ("name", "module", "family", "construct", "doms", "calls", "alias", "shapes", "call_tags")
+            if k in unit}
 
 
 
@@ -921,10 +926,20 @@ def family_e(quick: bool) -> tuple[list[dict], dict]:
 
 
 def support_modules(units: list[dict]) -> dict[str, str]:
+    """Modules compiled along with the main one: whole files (`support`, family d) and files assembled from the
+    parts every unit contributes (`support_parts`, family h)."""
     out: dict[str, str] = {}
+    parts: dict[str, list[str]] = {}
     for u in units:
         for fn, text in (u.get("support") or {}).items():
             out[fn] = text
+        for fn, text in (u.get("support_parts") or {}).items():
+            parts.setdefault(fn, []).append(text)
+    if parts:
+        from mc.c05_gen2 import H_LIBS, h_support_header
+
+        for lib in H_LIBS:  # every module of the package exists in every build (possibly empty)
+            out[lib + ".py"] = h_support_header() + "\n".join(parts.get(lib + ".py", []))
     return out
 
 
